@@ -166,7 +166,7 @@ pub fn run_batch<S: Scenario>(sc: &S, cfg: &RunCfg) -> BatchStats {
 
     // watchdog: a check never hangs. A run that takes longer than the limit of wall-clock time is a
     // mistake in a harness (every scenario bounds its own virtual time); say which one and stop.
-    let limit_s: u64 = std::env::var("VERIF_RUN_WALL_LIMIT_S").ok().and_then(|v| v.parse().ok()).unwrap_or(600);
+    let limit_s: u64 = std::env::var("VERIF_RUN_WALL_LIMIT_S").ok().and_then(|v| v.parse().ok()).unwrap_or(180);
     let running: Vec<Mutex<Option<(u64, u64, Instant)>>> = (0..cfg.threads.max(1)).map(|_| Mutex::new(None)).collect();
     let done = std::sync::atomic::AtomicBool::new(false);
     let engine = sc.engine();
@@ -178,8 +178,35 @@ pub fn run_batch<S: Scenario>(sc: &S, cfg: &RunCfg) -> BatchStats {
                 for slot in &running {
                     if let Some((i, seed, t)) = *slot.lock().unwrap() {
                         if t.elapsed().as_secs() > limit_s {
-                            println!("HARNESS-ERROR: engine {} run {} seed {} has been running for more than {} s of wall-clock time; giving up", engine, i, seed, limit_s);
-                            std::process::exit(2);
+                            // Every scenario bounds its own virtual time and every simulated seam
+                            // yields, so a run that does not come back is code under test looping
+                            // inside one poll (or never letting the clock move). That violates
+                            // the property this batch checks - nothing is served any more - and
+                            // is reported as such, with the case as replay file (replaying it
+                            // does not terminate either; `replay` applies the same limit).
+                            let case = sc.case(i, seed, cfg.tier);
+                            let rf = ReplayFile {
+                                property: cfg.property.clone(),
+                                rule: "does_not_terminate".into(),
+                                signature: serde_json::json!({"engine": engine}),
+                                detail: format!(
+                                    "engine {} run {} (seed {}) did not finish within {} s of wall-clock time: the code under test loops without yielding (each scenario bounds its own virtual time)",
+                                    engine, i, seed, limit_s
+                                ),
+                                engine: engine.to_string(),
+                                profile: cfg.profile.clone(),
+                                seed,
+                                run_index: i,
+                                minimised: false,
+                                shrink_steps: 0,
+                                log_digest: 0,
+                                case: serde_json::to_value(&case).unwrap_or(Value::Null),
+                            };
+                            let path = write_replay(&rf, false);
+                            println!("VIOLATION property={} replay={}", rf.property, path.display());
+                            println!("  rule={} signature={} detail={}", rf.rule, rf.signature, rf.detail);
+                            println!("hdsim: property={} tier={} seed={} runs=(aborted) violations=1 known_finding_hits=0", cfg.property, cfg.tier.name(), cfg.seed);
+                            std::process::exit(1);
                         }
                     }
                 }
